@@ -1,5 +1,5 @@
 SPECIFICATION Spec
-CONSTANTS Widths = {5} MaxH = 3 MaxOwn = 2 CtrMax = 4
+CONSTANTS Widths = {1, 5} MaxH = 3 MaxOwn = 2 CtrMax = 4
   LimbDom = {0, 1, 127, 128, 255, 256, 32767, 32768, 65535} IdWidths = {0, 1, 2, 3, 4, 5, 6, 7, 8, 9}
   StreamWidths = {1, 8}
   MsgDom <- CMsgDom TextDom <- CTextDom
